@@ -396,7 +396,20 @@ def gen_hand_recipe(rng: random.Random, semiring: str) -> dict[str, Any]:
                 val["tweak"] = rng.choice(["eps", "middle", "middle", None])
             inputs[v] = {"tp": {"init": {"type": "const", "value": val}, "learnable": learn,
                                 "dtype": "real"}, "act": "none", "layer": lt}
-    if rng.random() < 0.3:
+    gaussian = (not cplx) and (not wide) and rng.random() < 0.15
+    if gaussian:
+        # all-Gaussian inputs: rank-1 parameters (mean, stddev of shape (K,)) next to rank-2 sums
+        inputs = []
+        for v in range(nv):
+            ms = _gen_pspec(rng, (K,), positive=False, dtype="real", learnable=g_learn, acts=["none"])
+            sd = _gen_pspec(rng, (K,), positive=True, dtype="real", learnable=g_learn,
+                            acts=["none", "softplus", "sigmoid", "exp"])
+            if sd["tp"]["init"]["type"] == "const":
+                sd["tp"]["init"] = {"type": "uniform", "a": 0.3, "b": 1.5}
+            ms["layer"] = "gaussian"
+            ms["stddev"] = sd
+            inputs.append(ms)
+    if rng.random() < 0.3 and not gaussian:
         v = rng.randrange(nv)
         inputs[v]["evidence"] = rng.randrange(k)
     sums = None
@@ -410,8 +423,37 @@ def gen_hand_recipe(rng: random.Random, semiring: str) -> dict[str, Any]:
     nc = rng.choice([1, 1, 2])
     top = _gen_pspec(rng, (nc, K), positive=positive, dtype=dtype, learnable=rng.random() < 0.8,
                      acts=acts)
+    if rng.random() < 0.35:
+        # one initialiser *object* shared by several parameters, possibly of different rank
+        # (the lower-rank ones are constructed first: inputs, then sums, then the top)
+        r = rng.random()
+        if r < 0.5:
+            shared: dict[str, Any] = {"type": "dirichlet", "alpha": rng.choice([0.5, 1.0, 2.0]),
+                                      "axis": -1, "share": 1}
+        elif r < 0.75:
+            shared = {"type": "uniform", "a": 0.2, "b": round(rng.uniform(0.8, 2.0), 3), "share": 1}
+        else:
+            shared = {"type": "normal", "mean": 0.5, "std": round(rng.uniform(0.2, 1.0), 3), "share": 1}
+        positive_ok = shared["type"] != "normal"
+        targets: list[dict[str, Any]] = []
+        for ispec in inputs:
+            if ispec.get("layer") == "gaussian":
+                targets.append(ispec["stddev"] if positive_ok else ispec)
+            elif ispec.get("layer") == "embedding" and (positive_ok or not positive):
+                targets.append(ispec)
+        for sspec in (sums or []):
+            if positive_ok or not positive:
+                targets.append(sspec)
+        if positive_ok or not positive:
+            targets.append(top)
+        chosen = [t for t in targets if rng.random() < 0.6]
+        if len(chosen) >= 2:
+            for t in chosen:
+                if t["tp"].get("dtype", "real") == "real" and not t["tp"].get("constparam"):
+                    t["tp"]["init"] = dict(shared)
+    dom = ["real", 0] if gaussian else ["discrete", k]
     return {"kind": "hand", "nv": nv, "k": k, "units": K, "inputs": inputs, "sums": sums,
-            "top": top, "nc": nc, "domain": ["discrete", k]}
+            "top": top, "nc": nc, "domain": dom}
 
 
 def gen_c17(rng: random.Random, tier: str) -> Plan:
